@@ -2,6 +2,7 @@ import VlsModel.Model.Enforcement
 import VlsModel.Gen.FnEnforce
 import VlsModel.Lemmas.FnGen
 import VlsModel.Lemmas.EnforcementFn
+import VlsModel.Lemmas.SecretsFn
 /-
 C03 — the enforcement-state updates and selectors that the hand-written model `Model/Enforcement.lean` inlines
 in `signCp`, `revokeCp`, `revoke` and `prevPoint`, proved equal to the bodies of
@@ -238,5 +239,126 @@ example : Validator.set_next_counterparty_commit_num strict ()
     (toES { slot := .ready, cpCommit := 4, cpRevoke := 3, curPt := some 13, prevPt := some 12 }) 5 14 1
     = .ok (toES { slot := .ready, cpCommit := 5, cpRevoke := 3, curPt := some 14, prevPt := some 13,
                   curInfo := some 1 }) := by rfl
+
+/-! ### the compact secret store `CounterpartyCommitmentSecrets` (validator.rs:571-660), generated: `Gen/FnSecrets.lean`
+
+The hand-written generic store `Model/Secrets.lean` (for which `Secrets_store_sound`, `Secrets_store_complete`,
+`Secrets_size`, `C03_chain` are proved for every derivation step) instantiated with byte lists and the step
+`stepN h tb` = "flip the bit, then the external hash" IS the generated code, function by function. -/
+section Secrets
+open VlsModel.Secrets VlsModel.Lemmas.SecretsFn
+open VlsModel.Gen.FnSecrets (CounterpartyCommitmentSecrets)
+
+theorem C03_fn_secrets_new : CounterpartyCommitmentSecrets.new = { old_secrets := ([] : Store (List Nat)) } := rfl
+
+/-- `place_secret` = number of trailing zero bits capped at 48 (`Secrets.place`); never fails -/
+theorem C03_fn_place_secret (idx : Nat) :
+    CounterpartyCommitmentSecrets.place_secret idx = .ok (place idx) := by
+  have e : CounterpartyCommitmentSecrets.place_secret idx
+      = (Rs.loopM (ρ := Nat) (Rs.range 0 48) () (placeStep idx) >>= fun lr =>
+          match lr with | .inl () => pure 48 | .inr rv => pure rv) := rfl
+  rw [e, range_zero, place_loop idx 48 0 (by omega)]
+  unfold place
+  rw [placeFrom_eq]
+  cases firstBit idx 0 48 <;> rfl
+
+/-- `get_min_seen_secret` = `Secrets.minSeen` (the start value `1 << 48` is the generated constant `N48`) -/
+theorem C03_fn_get_min_seen_secret (st : Store (List Nat)) :
+    CounterpartyCommitmentSecrets.get_min_seen_secret { old_secrets := st } = .ok (minSeen st) := by
+  unfold CounterpartyCommitmentSecrets.get_min_seen_secret minSeen
+  rw [shl_one 48 (by omega), ← pow48]
+  simp only [Rs.bind_ok]
+  generalize (2 : Nat) ^ 48 = m
+  induction st generalizing m with
+  | nil => simp
+  | cons x xs ih =>
+    obtain ⟨s, i⟩ := x
+    simp only [List.foldlM_cons, List.foldl_cons, Rs.bind_ok, Rs.pure_eq]
+    by_cases c : i < m
+    · simpa [c] using ih i
+    · simpa [c] using ih m
+
+/-- `derive_secret(secret, bits, idx)` on a 32-byte secret with `bits ≤ 64` (callers pass a slot number ≤ 48) never
+    fails and is `Secrets.derive` over the step "flip the bit, hash" -/
+theorem C03_fn_derive_secret {H : Type} (h : List Nat → H) (tb : H → List Nat) (hh : ∀ l, (tb (h l)).length = 32)
+    (s : List Nat) (bits idx : Nat) (hs : s.length = 32) (hb : bits ≤ 64) :
+    CounterpartyCommitmentSecrets.derive_secret h tb s bits idx = .ok (derive (stepN h tb) s bits idx) :=
+  derive_secret_eq h tb hh s bits idx hs hb
+
+/-- **`provide_secret`** = `Secrets.provide` on every store, index and 32-byte secret: `Err(())` exactly when the model
+    refuses (slot beyond the store, or a lower slot is not derivable from the new secret), otherwise the model's store -/
+theorem C03_fn_provide_secret {H : Type} (h : List Nat → H) (tb : H → List Nat) (hh : ∀ l, (tb (h l)).length = 32)
+    (st : Store (List Nat)) (idx : Nat) (secret : List Nat) (hs : secret.length = 32) :
+    CounterpartyCommitmentSecrets.provide_secret h tb { old_secrets := st } idx secret
+      = match provide (stepN h tb) st idx secret with
+        | some st' => .ok { old_secrets := st' }
+        | none => .error (.err "()") := by
+  have hp : place idx ≤ 48 := place_le idx
+  unfold CounterpartyCommitmentSecrets.provide_secret provide
+  rw [C03_fn_place_secret]
+  simp only [Rs.bind_ok]
+  by_cases a : place idx > st.length
+  · simp [a, Rs.fail]
+  · simp only [a, decide_false, Bool.false_eq_true, if_false]
+    rw [range_zero, loop_check st (fun e => decide (derive (stepN h tb) secret (place idx) e.2 = e.1)) "()"
+          (place idx) 0 _ ?hf (by omega)]
+    case hf =>
+      intro i hi
+      have hidx : st[i]? = some st[i] := List.getElem?_eq_getElem hi
+      rcases hx : st[i] with ⟨os, oi⟩
+      simp only [Rs.index, hidx, hx, Rs.bind_ok, Rs.pure_eq,
+        derive_secret_eq h tb hh secret (place idx) oi hs (by omega)]
+      by_cases c : derive (stepN h tb) secret (place idx) oi = os
+      · simp [c]
+      · simp [c, Rs.fail]
+    rw [List.drop_zero, ← checkLower_eq_allFrom]
+    by_cases c : checkLower (stepN h tb) secret (place idx) st (place idx) = true
+    · simp only [c, if_true, Rs.bind_ok, C03_fn_get_min_seen_secret, Bool.not_true, Bool.false_eq_true, if_false]
+      by_cases d : minSeen st ≤ idx
+      · simp [d]
+      · by_cases e : place idx < st.length
+        · simp [d, e, Rs.setIndex]
+        · simp [d, e]
+    · simp [c]
+
+/-- **`get_secret`** = `Secrets.get` (a store of at most 64 entries — `Secrets_size`: at most 49 — whose secrets have 32
+    bytes, a `u64` index): the derived secret, `None`, or the `assert!` panic -/
+theorem C03_fn_get_secret {H : Type} (h : List Nat → H) (tb : H → List Nat) (hh : ∀ l, (tb (h l)).length = 32)
+    (st : Store (List Nat)) (idx : Nat) (hidx : idx < 2 ^ 64) (hlen : st.length ≤ 64)
+    (hall : ∀ e ∈ st, e.1.length = 32) :
+    CounterpartyCommitmentSecrets.get_secret h tb { old_secrets := st } idx
+      = match Secrets.get (stepN h tb) st idx with
+        | .some s => .ok (some s)
+        | .none => .ok none
+        | .panic => .error .panic := by
+  unfold CounterpartyCommitmentSecrets.get_secret Secrets.get
+  rw [range_zero, loop_find st (fun i e => decide (hi i idx = e.2))
+        (fun i e => some (derive (stepN h tb) e.1 i idx)) st.length 0 _ ?hf (by omega)]
+  case hf =>
+    intro i hlt
+    have hi64 : i < 64 := by omega
+    have hidx' : st[i]? = some st[i] := List.getElem?_eq_getElem hlt
+    have hmem : st[i] ∈ st := List.getElem_mem hlt
+    have hl := hall _ hmem
+    have hpos : 1 ≤ 2 ^ i := Nat.one_le_two_pow
+    have hsub : Rs.usub (2 ^ i) 1 = .ok (2 ^ i - 1) := by simp [Rs.usub, hpos]
+    have htr : Rs.utrunc Rs.U8_MAX i = i := by
+      unfold Rs.utrunc Rs.U8_MAX
+      exact Nat.mod_eq_of_lt (by omega)
+    simp only [shl_one i hi64, Rs.bind_ok, hsub, Rs.index, hidx', Rs.pure_eq, hi_eq idx i hidx hi64, htr,
+      derive_secret_eq h tb hh st[i].1 i idx hl (by omega)]
+    by_cases c : hi i idx = st[i].2
+    · simp [c]
+    · simp [c]
+  rw [List.drop_zero, findFrom_some, ← getFrom_eq_findFrom]
+  cases hg : getFrom (stepN h tb) idx st 0 with
+  | some s => simp
+  | none =>
+    simp only [Option.map_none, Rs.bind_ok, C03_fn_get_min_seen_secret]
+    by_cases d : idx < minSeen st
+    · simp [d, Rs.assert]
+    · simp [d, Rs.assert, Rs.panic]
+
+end Secrets
 
 end VlsModel.Props.C03Fn
